@@ -51,6 +51,14 @@ CHECKS = {
          "Generated-input search: JSON-like values (full int64/uint64 range, floats incl. subnormals, unicode, byte strings, empty containers) are encoded by hand-written encoders (msgpack, cbor, bson, bencode, BER; JSON/JSONL/YAML/TOML/XML/CSV text emitters) that choose a wire variant per node (all width forms, definite/indefinite, chunking, float sizes); torepr/tovalue of fq's decode must equal the source; every strict prefix of a prefix-free encoding must be a decode error; trailing bytes must be an error (text) or a top-level gap (binary). A deterministic enumeration covers every width/length form at its boundaries.",
          "Trusted: lib/enc (pinned to RFC 8949 appendix A, spec examples, encoding/asn1, encoding/json). Out of domain: cbor tags, bson exotic types, msgpack timestamps, BER tags >= 31.",
          "DESIGN.md 2/C16"),
+ "C14": ("rapid-generated values per conversion pair: round trips, independent reference encoders/readers, malformed-input rejection",
+         "Generated-input search per encoder/decoder pair (hex, 4 base64 variants, URL path/query/urlencode/url, ISO-8859-1, UTF-8/16, radix 2..64 incl. big integers, JSON/JSONL/jq literals, YAML, TOML, CSV, XML in 3 forms, xmlentities) and the hash functions: round trip on the documented domain, agreement with harness-written references (RFC 4648 coder, percent decoder, UTF-16, Horner radix loops, RFC 4180 reader, XML mappings) and Go crypto (+ published vectors, python3 hashlib in the thorough tier), and malformed inputs (odd/invalid digits, bad padding/alphabet, trailing data, truncation) must be errors. One long-running jq program per interpreter keeps the cost at ~0.2 ms per case.",
+         "Trusted: the references in props/c14, Go crypto/encoding packages as references only. Domains narrowed to what doc/usage.md documents as lossless (see NOTES.md); six library-level round-trip defects are listed known findings.",
+         "DESIGN.md 2/C14"),
+ "C19": ("rapid-generated TCP conversations written by an independent packet/pcap writer, reassembly compared with the sender model",
+         "Generated-history search: 1..4 connections x two payload streams (0..64 KiB, sequence numbers crossing 2^32) are segmented by a harness TCP sender, then interleaved, duplicated, re-segmented, swapped, IPv4-fragmented (fragments reordered) and selectively omitted by rapid-drawn edits, framed by hand-written Ethernet / raw IP / SLL / SLL2 / loopback and pcap (LE/BE, us/ns) / pcapng (multi-section) writers; fq's .tcp_connections and .ipv4_reassembled (through the decode tree and, for a sample, through jq) must equal the model: exact bytes per direction and endpoint, with loss only the prefix before the first missing byte plus a non-zero skipped_bytes.",
+         "Trusted: lib/pcapgen and the sender model. SYN omission, 4-tuple reuse and mid-connection captures are not generated. Five library-level (gopacket) or by-design limits are listed known findings and decided from the generated input, never from fq's output.",
+         "DESIGN.md 2/C19"),
 }
 
 NOT_YET = {}
